@@ -61,6 +61,9 @@ func runC16(seed uint64, n int, tier string, outDir string) []*Stats {
 		panic(err)
 	}
 	ss := runSearch(r, n, tier, corpus)
+	if tier == "thorough" {
+		runDepthProbe(ss)
+	}
 	return []*Stats{st, ss}
 }
 
@@ -351,8 +354,6 @@ func runSearch(r *Rng, n int, tier string, corpus map[string][]Seed) *Stats {
 	st.Extra["seed_corpus_sizes"] = sizes
 	st.Extra["label"] = "SUPPORTING SEARCH (not proof): seeded mutation of the repository's test inputs through api.Transform/api.Build in killable child processes"
 	st.Finish("search: a case counts as distinct-nontrivial when its (input, options) hash is new and esbuild produced output or at least one ordinary diagnostic")
-	_ = sort.Strings
-	_ = strings.Join
 	return st
 }
 
@@ -376,4 +377,25 @@ func hashBytes(c *Case) uint64 {
 		mix(c.Files[k])
 	}
 	return h
+}
+
+// runDepthProbe (thorough tier): esbuild has no recursion-depth limit; nesting far BEYOND the
+// property's bound (about 1,000,000 levels, a 2 MB file) exhausts the Go stack, which is fatal and
+// not recoverable by parseFile's recover. Recorded as known finding C16-unbounded-recursion-depth;
+// the probe keeps it reproducible (and notices when a depth limit is introduced).
+func runDepthProbe(st *Stats) {
+	depth := 1500000
+	in := []byte(strings.Repeat("[", depth) + strings.Repeat("]", depth))
+	outs := RunPool([]*Case{{Kind: "transform", Input: in, Opts: Opts{Loader: "json"}, Desc: "depth-probe"}}, 1, 120*time.Second)
+	o := outs[0]
+	st.Note("depth-probe", "json-array-1500000", true)
+	switch {
+	case o.Status == "died" && strings.Contains(o.Stderr, "stack exceeds"):
+		st.Fail("process death by stack exhaustion on nesting beyond the property's bound (no recursion-depth limit)",
+			map[string]interface{}{"loader": "json", "input": "'[' x 1500000 + ']' x 1500000 (3 MB)", "depth": depth}, clip(o.Stderr, 300), "a diagnostic (nesting too deep)")
+	case o.Status == "ok":
+		st.Extra["depth_probe"] = fmt.Sprintf("survived depth %d: errors=%d out=%d", depth, o.NErrors, o.OutLen)
+	default:
+		st.Extra["depth_probe"] = "inconclusive: " + o.Status + " " + clip(o.Stderr, 200)
+	}
 }
